@@ -1390,6 +1390,11 @@ M('C03', 'from_product_mps_covering copies the operand only when it permutes (ro
   "            local_psi = local_psi.copy()\n            argsort = np.argsort(ind_map)\n            if not np.all(argsort == np.arange(len(argsort))):\n", "            argsort = np.argsort(ind_map)\n            if not np.all(argsort == np.arange(len(argsort))):\n                local_psi = local_psi.copy()\n",
   'OWN-param-mps-inplace')
 
+M('C04', 'python LegPipe._init_from_legs makes q_map relative only when bunching (round-5 seed a)', CH,
+  "            self.bunched = True\n        else:\n            q_map[:, 2] = q_map_Qi = np.arange(len(q_map), dtype=np.intp)\n            idx = np.arange(len(q_map) + 1, dtype=np.intp)\n        # calculate the slices within blocks: subtract the start of each block\n        q_map[:, :2] -= (self.slices[q_map_Qi])[:, np.newaxis]\n",
+  "            q_map[:, :2] -= (self.slices[q_map_Qi])[:, np.newaxis]\n            self.bunched = True\n        else:\n            q_map[:, 2] = np.arange(len(q_map), dtype=np.intp)\n            idx = np.arange(len(q_map) + 1, dtype=np.intp)\n",
+  'PAIR-augassign-guards')
+
 # ---------------------------------------------------------------- C16 / C19
 M('C16', 'GMRES restart: relative residual norm used for normalisation (round-3 seed b)', KRY,
   """        self.total_error.append([npc.norm(self.rs[-1]) / self.b_norm])
